@@ -670,6 +670,16 @@ Proof.
   destruct (uses_pandas a b); auto. simpl in *. apply kf_exact_in_kf. auto.
 Qed.
 
+(* the same under the broader, simpler domain |z| > 2^53 *)
+Lemma forward_kf_l a b x : a <> b -> valid_of a x = true -> kf_route a b (view_of x) = false ->
+  valid_of b (conv a b x) = true /\ pres (view_of x) (view_of (conv a b x)) = true.
+Proof. intros NE V K. apply forward_l; auto. apply kf_route_exact_in; auto. Qed.
+
+Lemma roundtrip_kf_l a b x : a <> b -> valid_of a x = true -> kf_route a b (view_of x) = false ->
+  valid_of b (conv a b x) = true /\ pres (view_of x) (view_of (conv a b x)) = true /\
+  valid_of a (conv b a (conv a b x)) = true /\ pres (view_of x) (view_of (conv b a (conv a b x))) = true.
+Proof. intros NE V K. apply roundtrip_l; auto. apply kf_route_exact_in; auto. Qed.
+
 (* ================= names and row counts, also where a value is lost ================= *)
 Lemma shape_l a b x : a <> b -> valid_of a x = true -> (b = FDict -> kf_empty (view_of x) = false) ->
   valid_of b (conv a b x) = true /\ shape (view_of (conv a b x)) = shape (view_of x).
@@ -684,4 +694,71 @@ Proof.
     assert (K' : kf_empty (view_of (cv_p2a x)) = false) by (rewrite <- (kf_empty_shape _ _ S); auto).
     destruct (step_a2d _ V' K') as [V'' W]. rewrite W. auto.
   - destruct (step_p2a x V) as [V' P]. split; auto. symmetry. apply pres_shape. auto.
+Qed.
+
+(* ================= the schema check ================= *)
+Lemma same_keys_spec r r0 : same_keys r r0 = true <-> (forall k, In k (keys r) <-> In k (keys r0)).
+Proof.
+  unfold same_keys. rewrite andb_true_iff, !forallb_forall. split.
+  - intros [H1 H2] k. split; intros I; apply mem_in; auto.
+  - intros H. split; intros k I; apply mem_in; apply H; auto.
+Qed.
+
+Lemma res_all_not_rejected {A} (l : list (res A)) : (forall r, In r l -> r <> Rejected) -> res_all l <> Rejected.
+Proof.
+  induction l as [|r l]; simpl; [discriminate|]. intros H.
+  destruct r as [a| |]; simpl; [|exfalso; apply (H Rejected); auto|discriminate].
+  destruct (res_all l) eqn:E; simpl; try discriminate. exfalso. apply IHl; auto.
+Qed.
+
+Lemma build_acol_not_rejected cs : build_acol cs <> Rejected.
+Proof. unfold build_acol. destruct (infer cs) as [|[]|]; try discriminate. destruct (forallb cell_int64 cs); discriminate. Qed.
+
+Lemma from_pylist_not_rejected rows : from_pylist rows <> Rejected.
+Proof.
+  destruct rows as [|r0 rest]; simpl; [discriminate|]. apply res_all_not_rejected. intros r I.
+  apply in_map_iff in I. destruct I as [k [E _]]. subst r. pose proof (build_acol_not_rejected (map (dcell k) (r0 :: rest))).
+  destruct (build_acol _); simpl; congruence.
+Qed.
+
+(* the transformer raises its ValueError exactly when some row's key SET differs from the first row's *)
+Lemma schema_reject_iff_l rows :
+  d2a rows = Rejected <-> exists r0 rest r, rows = r0 :: rest /\ In r rows /\ ~ (forall k, In k (keys r) <-> In k (keys r0)).
+Proof.
+  destruct rows as [|r0 rest].
+  - simpl. split; [discriminate|]. intros [? [? [? [E _]]]]. discriminate.
+  - cbn [d2a]. destruct (schema_ok (r0 :: rest)) eqn:S.
+    + split; [intros E; exfalso; eapply from_pylist_not_rejected; eauto|].
+      intros [r0' [rest' [r [E [I N]]]]]. injection E as E1 E2. subst r0' rest'. exfalso. apply N.
+      apply same_keys_spec. unfold schema_ok in S. rewrite forallb_forall in S. auto.
+    + split; auto. intros _. exists r0, rest.
+      unfold schema_ok in S. assert (exists r, In r (r0 :: rest) /\ same_keys r r0 = false) as [r [I F]].
+      { clear -S. induction (r0 :: rest) as [|a l]; simpl in *; [discriminate|]. apply andb_false_iff in S. destruct S as [S|S]; eauto.
+        destruct (IHl S) as [r [I F]]. eauto. }
+      exists r. repeat split; auto. intros H. apply same_keys_spec in H. congruence.
+Qed.
+
+(* with the check passed and unique keys, the view (columns of the first row, cells looked up by name) shows every
+   (key, value) of every row: nothing is invented, nothing is dropped *)
+Lemma dget_in r k v : nodupb (keys r) = true -> In (k, v) r -> dget r k = Some v.
+Proof.
+  induction r as [|[k' v'] r]; simpl; [tauto|]. intros N I. apply andb_true_iff in N. destruct N as [N1 N2].
+  destruct (String.eqb k' k) eqn:E.
+  - destruct I as [I|I]; [congruence|]. exfalso. apply String.eqb_eq in E. subst k'. apply negb_true_iff in N1.
+    assert (mem k (keys r) = true); [|congruence]. apply mem_in. unfold keys. apply in_map_iff. exists (k, v). auto.
+  - destruct I as [I|I]; [injection I as I1 I2; subst; rewrite String.eqb_refl in E; discriminate|auto].
+Qed.
+
+Lemma view_d_complete_l rows r k v : valid_d rows = true -> In r rows -> In (k, v) r ->
+  exists cs, In (k, cs) (view_d rows) /\ In v cs.
+Proof.
+  destruct rows as [|r0 rest]; [simpl; tauto|]. set (rows := r0 :: rest). unfold valid_d. fold rows. intros V I IK.
+  apply andb_true_iff in V. destruct V as [V _]. apply andb_true_iff in V. destruct V as [V V3].
+  apply andb_true_iff in V. destruct V as [_ V2]. rewrite forallb_forall in V2.
+  unfold schema_ok, rows in V3. fold rows in V3. rewrite forallb_forall in V3.
+  assert (K0 : In k (keys r0)).
+  { apply (proj1 (same_keys_spec r r0) (V3 r I)). unfold keys. apply in_map_iff. exists (k, v). auto. }
+  exists (map (dcell k) rows). split.
+  - unfold view_d, rows. fold rows. apply in_map_iff. eauto.
+  - apply in_map_iff. exists r. split; auto. unfold dcell. rewrite (dget_in r k v); auto.
 Qed.
